@@ -194,6 +194,56 @@ class Check:
         return 1 if new else 0
 
 
+def seeded_selftest(chk, pid):
+    """thorough tier: every seeded change of this property that the check detected on the pinned tree and that still applies to the
+    current working tree is applied to a scratch copy of it; the property's rules, run on the copy, must report a violation.
+    A change that is no longer reported means the rule lost its teeth on this tree: analysis broken (exit 2), never a pass."""
+    import glob, shutil, subprocess
+    base = os.path.join("/tmp", "vfthorough", pid)
+    shutil.rmtree(base, ignore_errors=True)
+    res = {}
+    blind = []
+    try:
+        for d in sorted(glob.glob(os.path.join(VERIF, "seeded", "*", ""))):
+            try:
+                meta = json.load(open(os.path.join(d, "meta.json")))
+            except Exception:
+                continue
+            mid = meta.get("id")
+            if pid not in (meta.get("detected_by") or []):
+                continue
+            wd = os.path.join(base, mid)
+            repo = os.path.join(wd, "repo")
+            os.makedirs(wd)
+            r = subprocess.run(["rsync", "-a", "--exclude", "_build", "--exclude", ".git", build.REPO.rstrip("/") + "/", repo + "/"], capture_output=True, text=True)
+            if r.returncode != 0:
+                res[mid] = "skipped: copy failed"
+                continue
+            r = subprocess.run(["git", "apply", "--whitespace=nowarn", os.path.join(d, "patch.diff")], cwd=repo, capture_output=True, text=True)
+            if r.returncode != 0:
+                res[mid] = "skipped: does not apply to the current tree"
+                shutil.rmtree(wd, ignore_errors=True)
+                continue
+            env = dict(os.environ, VERIF_REPO=repo, VERIF_OUT=os.path.join(wd, "out"), VERIF_SELFTEST="1")
+            o = subprocess.run([os.path.join(VERIF, "vcheck"), pid, "--tier", "quick"], cwd=VERIF, env=env, capture_output=True, text=True)
+            rules_hit = sorted({l.split()[0] for l in o.stdout.splitlines() if l.startswith("  C")})
+            if o.returncode == 1:
+                res[mid] = "detected: " + ",".join(rules_hit)
+            else:
+                res[mid] = "NOT detected (exit %d)" % o.returncode
+                blind.append(mid)
+            shutil.rmtree(wd, ignore_errors=True)
+    finally:
+        shutil.rmtree(base, ignore_errors=True)
+    chk.extra["seeded_selftest"] = res
+    chk.rule("%s-SELFTEST" % pid, "seeded changes of this property that apply to the current tree are reported when applied to a scratch copy of it")
+    for mid, r in res.items():
+        if r.startswith("detected"):
+            chk.ok("%s-SELFTEST" % pid, 1, {"seeded": mid, "result": r})
+    if blind:
+        raise AnalysisBroken("seeded change(s) %s apply to the current tree but are no longer reported: the rules lost their teeth" % ", ".join(blind))
+
+
 def main(argv=None):
     import argparse, importlib
     ap = argparse.ArgumentParser()
@@ -218,6 +268,12 @@ def main(argv=None):
         chk.floor("units", w.facts["n_units"], 30)
         chk.floor("functions", len(w.P.repo_functions()), 340)
         mod.run(chk, w)
+        if a.tier == "thorough" and not os.environ.get("VERIF_SELFTEST"):
+            known = [k for k in load_known() if k.get("property") == pid and k.get("status") == "known"]
+            unlisted = [v for v in chk.found if not any(k.get("rule") == v["rule"] and k.get("key") == v["key"] for k in known)]
+            if not unlisted:
+                # (a tree that already violates the property is reported as such; the self-test is for trees that look clean)
+                seeded_selftest(chk, pid)
         return chk.finish()
     except AnalysisBroken as e:
         print("ANALYSIS-BROKEN property=%s: %s" % (pid, e))
